@@ -179,6 +179,12 @@ fn faults(m: &Model, valid: &[u8], other_seed: &[u8], other_params: &[u8], half:
     f.push(("marker-zeroed".into(), b, true));
     // foreign buffers
     f.push(("other-seed-buffer".into(), other_seed.to_vec(), true));
+    // the other key's buffer with its marker byte cleared: exactly the used length, stale nodes behind a zero marker
+    let mut oz = other_seed.to_vec();
+    oz[0] = 0;
+    f.push(("other-seed-buffer-marker-zeroed".into(), oz.clone(), true));
+    oz.push(0x77);
+    f.push(("other-seed-buffer-marker-zeroed-plus-one".into(), oz, true));
     f.push(("same-seed-other-parameters-buffer".into(), other_params.to_vec(), false));
     // garbage
     let lens: Vec<usize> = if th { (0..=valid.len() + 8).collect() } else { vec![0, 1, 2, 3, 4, 5, n, n + 3, n + 4, n + 5, valid.len() / 2, valid.len() - 1, valid.len(), valid.len() + 5] };
